@@ -123,6 +123,54 @@ def case_interpolate(ctx, layout, m, off, free, ns=2, run=False):
             ctx.oblige("no_bad_row_contributes", all(coef[b][tt] == 0 for b in bad for tt in range(ns)), detail={"row": i, "labels": lv})
 
 
+class _Int16Data(arrays.SymArray):
+    """recording held as int16: `dtype` answers int16 and values stored into it are truncated toward zero, as NumPy does"""
+
+    @property
+    def dtype(self):
+        return np.dtype(np.int16)
+
+    def __setitem__(self, key, value):
+        v = np.asarray(arrays._plain(value), dtype=object) if isinstance(value, np.ndarray) else value
+        if isinstance(v, np.ndarray):
+            c = np.empty(v.shape, dtype=object)
+            for pos in np.ndindex(*v.shape):
+                c[pos] = arrays.cast_scalar(arrays._num(v[pos]), np.int16) if isinstance(v[pos], core.Sym) or v[pos] != int(v[pos]) else int(v[pos])
+            v = c
+        elif isinstance(v, core.Sym) or isinstance(v, float):
+            v = arrays.cast_scalar(v, np.int16) if isinstance(v, core.Sym) else int(v)
+        np.ndarray.__setitem__(self.view(np.ndarray), key, v)
+
+
+def case_interpolate_int16(ctx, layout, m, bad_at):
+    """raw integer data: the repaired channel must still lie within the range of its contributing neighbours (and not be zeroed)"""
+    import ibldsp.voltage as v
+    x, y = _geometry(layout, m, 0)
+    kind = ctx.int("kind", 1, 2)
+    labels = [0] * m
+    vals = [ctx.int(f"d{i}", -32768, 32767) for i in range(m)]
+    base = arrays.mk(list(vals), shape=(m, 1), tag=np.dtype(np.int16))
+    data = base.view(_Int16Data)
+    lab = arrays.mk([kind if i == bad_at else 0 for i in range(m)], tag=np.dtype(float))
+    out = ctx.call("interpolate", v.interpolate_bad_channels, data, lab, x, y)
+    if not ctx.oblige("shape_preserved", tuple(out.shape) == (m, 1)):
+        return
+    w = np.exp(-((np.abs(x - x[bad_at] + 1j * (y - y[bad_at])) / 20) ** 1.3))
+    w[bad_at] = 0
+    w[w < 0.005] = 0
+    contrib = [j for j in range(m) if w[j] > 0]
+    o = np.asarray(arrays._plain(out), dtype=object)[bad_at, 0]
+    lo, hi = vals[contrib[0]], vals[contrib[0]]
+    for j in contrib[1:]:
+        lo = ite(vals[j] < lo, vals[j], lo)
+        hi = ite(vals[j] > hi, vals[j], hi)
+    ctx.oblige("integer_data_repaired_channel_within_neighbour_range", and_(o >= lo, o <= hi), detail={"out": o, "lo": lo, "hi": hi, "contributors": contrib})
+    for i in range(m):
+        if i != bad_at:
+            oi = np.asarray(arrays._plain(out), dtype=object)[i, 0]
+            ctx.oblige("good_and_outside_rows_returned_identical", oi is vals[i] or core.eq(oi, vals[i]) is True, detail={"row": i})
+
+
 def _coefficients(o, var_rows):
     """o = sum c[j][t] * var_rows[j][t]; returns c as Fractions (None if o is not such a linear term)"""
     from fractions import Fraction
@@ -230,6 +278,8 @@ def cases(tier):
             cs.append(Case(f"interp_{lay}_m{b['m']}_off{off}", "case_interpolate", {"layout": lay, "m": b["m"], "off": off, "free": b["free"]}, timeout_s=3000, max_paths=300000))
     for lay, mm in ([("np1", 20)] if tier == "quick" else [("np1", 24), ("np2", 20), ("np24", 20)]):
         cs.append(Case(f"interp_{lay}_run_of_bad_m{mm}", "case_interpolate", {"layout": lay, "m": mm, "off": 0, "free": 0, "run": True, "ns": 1}, timeout_s=3000, max_paths=300000))
+    for lay, bad_at in (("np1", 3),) if tier == "quick" else (("np1", 3), ("np1", 0), ("np2", 4), ("np24", 7)):
+        cs.append(Case(f"interp_{lay}_int16_bad{bad_at}", "case_interpolate_int16", {"layout": lay, "m": 8, "bad_at": bad_at}, timeout_s=1500))
     cs.append(Case("mode_2ch_3batches", "case_mode", {"nch": 2, "n_batches": 3}))
     cs.append(Case("mode_2ch_4batches", "case_mode", {"nch": 2, "n_batches": 4}))
     cs.append(Case("mode_1ch_5batches", "case_mode", {"nch": 1, "n_batches": 5}))
